@@ -62,7 +62,7 @@ func runBuild(in buildIn) (interface{}, error) {
 
 func init() {
 	b := func(tmpl, strip, prepend, code, host, target string) buildIn {
-		return buildIn{tgtIn{tmpl, strip, prepend, code}, host, target}
+		return buildIn{tgtIn{Tmpl: tmpl, Strip: strip, Prepend: prepend, Redirect: code}, host, target}
 	}
 	hx.Register(&hx.Stream{
 		Name: "c13.build",
